@@ -499,6 +499,7 @@ impl Display for PubcompError {
 
 /// Main library error type. All other errors are converted to this type before being returned to the user.
 ///
+#[cfg_attr(kani, repr(u8))] // verification hook: explicit tag instead of a niche, no effect on safe code
 #[derive(Debug, Clone)]
 pub enum MqttError {
     /// See [InternalError](crate::client::error::InternalError)
